@@ -61,6 +61,7 @@ fn generate_thread_local_branch(
 
     let invalidation_check = generate_invalidation_check(invalidate_on);
     let cache_condition = generate_cache_condition(cache_if, has_max_memory, is_result);
+    let verif_registration = verif_thread_local_registration(cache_ident, order_ident, has_max_memory);
 
     quote! {
         thread_local! {
@@ -78,6 +79,8 @@ fn generate_thread_local_branch(
             #frequency_weight_expr
         );
 
+        #verif_registration
+
         let __key = #key_expr;
 
         if let Some(cached) = __cache.get(&__key) {
@@ -90,6 +93,109 @@ fn generate_thread_local_branch(
     }
 }
 /// Check if max_memory is None by comparing the token stream
+/// Verification hook H2 (cargo feature `verif`, add-only): registers, for the global cache of this
+/// function, closures that dump its entries/queue and shift the entries' birth times.
+fn verif_global_registration(
+    cache_ident: &syn::Ident,
+    order_ident: &syn::Ident,
+    fn_name_str: &str,
+    has_max_memory: bool,
+) -> TokenStream2 {
+    if !cfg!(feature = "verif") {
+        return quote! {};
+    }
+    let size_expr = if has_max_memory {
+        quote! { cachelito_core::MemoryEstimator::estimate_memory(&e.value) }
+    } else {
+        quote! { 0usize }
+    };
+    quote! {
+        {
+            use std::sync::Once;
+            static VERIF_REGISTER_ONCE: Once = Once::new();
+            VERIF_REGISTER_ONCE.call_once(|| {
+                cachelito_core::verif::register_global(
+                    #fn_name_str,
+                    move || {
+                        let order = #order_ident.lock();
+                        let map = #cache_ident.read();
+                        cachelito_core::verif::CacheDump {
+                            entries: map
+                                .iter()
+                                .map(|(k, e)| (
+                                    k.clone(),
+                                    format!("{:?}", e.value),
+                                    #size_expr,
+                                    e.inserted_at.elapsed().as_millis() as u64,
+                                    e.frequency,
+                                ))
+                                .collect(),
+                            queue: order.iter().cloned().collect(),
+                        }
+                    },
+                    move |ms: u64| {
+                        let mut map = #cache_ident.write();
+                        for e in map.values_mut() {
+                            if let Some(t) = e.inserted_at.checked_sub(std::time::Duration::from_millis(ms)) {
+                                e.inserted_at = t;
+                            }
+                        }
+                    },
+                );
+            });
+        }
+    }
+}
+
+/// Verification hook H2 for the thread-local cache of this function (per calling thread).
+fn verif_thread_local_registration(
+    cache_ident: &syn::Ident,
+    order_ident: &syn::Ident,
+    has_max_memory: bool,
+) -> TokenStream2 {
+    if !cfg!(feature = "verif") {
+        return quote! {};
+    }
+    let name = cache_ident.to_string();
+    let size_expr = if has_max_memory {
+        quote! { cachelito_core::MemoryEstimator::estimate_memory(&e.value) }
+    } else {
+        quote! { 0usize }
+    };
+    quote! {
+        cachelito_core::verif::register_thread_local(
+            #name,
+            || {
+                #cache_ident.with(|c| {
+                    #order_ident.with(|o| cachelito_core::verif::CacheDump {
+                        entries: c
+                            .borrow()
+                            .iter()
+                            .map(|(k, e)| (
+                                k.clone(),
+                                format!("{:?}", e.value),
+                                #size_expr,
+                                e.inserted_at.elapsed().as_millis() as u64,
+                                e.frequency,
+                            ))
+                            .collect(),
+                        queue: o.borrow().iter().cloned().collect(),
+                    })
+                })
+            },
+            |ms: u64| {
+                #cache_ident.with(|c| {
+                    for e in c.borrow_mut().values_mut() {
+                        if let Some(t) = e.inserted_at.checked_sub(std::time::Duration::from_millis(ms)) {
+                            e.inserted_at = t;
+                        }
+                    }
+                })
+            },
+        );
+    }
+}
+
 fn has_max_memory(max_memory_expr: &TokenStream2) -> bool {
     let max_memory_str = max_memory_expr.to_string();
     let has_max_memory = !max_memory_str.contains("None");
@@ -159,6 +265,8 @@ fn generate_global_branch(
 
     let invalidation_check = generate_invalidation_check(&attrs.invalidate_on);
     let cache_condition = generate_cache_condition(&attrs.cache_if, has_max_memory, is_result);
+    let verif_registration =
+        verif_global_registration(cache_ident, order_ident, fn_name_str, has_max_memory);
 
     // ...existing code...
 
@@ -255,6 +363,7 @@ fn generate_global_branch(
 
         #invalidation_registration
         #invalidation_callback_registration
+        #verif_registration
 
         #[cfg(feature = "stats")]
         let __cache = GlobalCache::<#ret_type>::new(
